@@ -33,6 +33,8 @@ impl ParseError {
         error: ContextError<StrContext>,
     ) -> Self {
         let offset = input.offset_from(&start);
+        #[cfg(feature = "verif")]
+        crate::verif::emit("parse.error", || format!("{}|{}", offset, initial.len()));
         input.reset(&start);
         let line_start = compute_line_number(initial, input.current_token_start());
         // Assume the error span is only for the first `char`.
